@@ -20,7 +20,9 @@ def valid_case(rng, maxlen, allow_nonl=True):
 def run(R):
     if not R.build():
         return
-    R.lean(["C01", "C01Driver"])
+    R.lean(["C01", "C01Driver", "C01Run"])
+    import hunted
+    hunted.run(R, "C01")
     quick = R.tier == "quick"
     rng = R.rng
     # (1) apply_patch on valid scripts: the model's theorem C01_core says what must come out; oracle = the new file itself
